@@ -18,7 +18,7 @@ TNext ==
      \/ Ev.ev = "op" /\ POp(Ev.op, Ev.d)
      \/ Ev.ev = "close" /\ PClose(Ev.b_files, Ev.b_other, Ev.a_files, Ev.a_other, Ev.idx, Ev.ep, Ev.ec, Ev.ek)
      \/ Ev.ev = "final" /\ PFinal(Ev.b_files, Ev.idx, Ev.ep, Ev.ec, Ev.ek, Ev.strict)
-     \/ Ev.ev = "skip" /\ PSkip
+     \/ Ev.ev \in {"skip", "died"} /\ PSkip     \* "died": the driver process ended here, the events before it are judged
 TSpec == TInit /\ [][TNext]_<<pvars, l>>
 HW == TLCSet(1, IF TLCGet(1) > l THEN TLCGet(1) ELSE l)
 Accepted == PrintT(<<"HIGHWATER", TLCGet(1), Len(Log)>>)
